@@ -163,6 +163,17 @@ def run(shard, ctx):
             for rc in RCS:
                 check(ctx, mod, ref, ref.build(rc, 0, 5, 0x24, 0x00, n))
                 ctx.add("lengths", n)
+        # descriptor format carrying real descriptors (also forwarded sense data of another command, whose own
+        # key/ASC/ASCQ must not be taken for the header's)
+        for j in range(shard["n"] // 2):
+            rc = rng.choice([0x72, 0x73])
+            kinds = [rng.choice(ref.DESCRIPTOR_KINDS) for _ in range(rng.randint(0, 4))]
+            if j % 2:
+                kinds.insert(rng.randint(0, len(kinds)), "forwarded")
+            asc, ascq = rng.choice(sorted(ref.ASC))
+            buf = ref.build_with_descriptors(rc, rng.randrange(16), asc, ascq, [ref.descriptor(k, rng) for k in kinds])
+            ctx.add("descriptor_kinds", "+".join(sorted(set(kinds))) or "none")
+            check(ctx, mod, ref, buf, sample=(j % 499 == 0))
     elif kind == "odd":
         for j in range(shard["n"]):
             rc = rng.choice(ODD_RCS) if j % 3 else rng.randrange(0, 0x70)
